@@ -140,7 +140,7 @@ pub fn dump_params(spdc: &SPDC, ws: Frequency, wi: Frequency, zs: &[f64]) -> Val
   let L = spdc.crystal_setup.length;
   let raw = |f: Frequency| *(f / (RAD / S));
   let apod: Vec<Value> = zs.iter().map(|z| fx(spdc.pp.integration_constant(*z, L))).collect();
-  json!({
+  let mut a = json!({
     "L": fx(*(L / M)),
     "phi_s": fx(*(spdc.signal.phi() / RAD)), "phi_i": fx(*(spdc.idler.phi() / RAD)),
     "theta_s": fx(*(spdc.signal.theta_internal() / RAD)), "theta_i": fx(*(spdc.idler.theta_internal() / RAD)),
@@ -164,9 +164,23 @@ pub fn dump_params(spdc: &SPDC, ws: Frequency, wi: Frequency, zs: &[f64]) -> Val
     "power": fx(spdc.pump_average_power.value_unsafe),
     "deff": fx(spdc.deff.value_unsafe),
     "thr": fx(spdc.pump_spectrum_threshold),
+  });
+  let b = json!({
+    "lambda_s": fx(*(spdc.signal.vacuum_wavelength() / M)), "lambda_i": fx(*(spdc.idler.vacuum_wavelength() / M)),
+    "omega_s0": fx(raw(spdc.signal.frequency())), "omega_i0": fx(raw(spdc.idler.frequency())),
+    "n_s0": fx(*spdc.signal.refractive_index(spdc.signal.frequency(), cs)),
+    "n_i0": fx(*spdc.idler.refractive_index(spdc.idler.frequency(), cs)),
+    "n_p0": fx(*spdc.pump.refractive_index(spdc.pump.frequency(), cs)),
+    "ng_s": fx(*spdc.signal.group_index(cs, PeriodicPoling::Off)),
+    "ng_i": fx(*spdc.idler.group_index(cs, PeriodicPoling::Off)),
+    "ng_p": fx(*spdc.pump.group_index(cs, PeriodicPoling::Off)),
     "pm_type": spdc.crystal_setup.pm_type.to_str(),
     "pol_s": format!("{:?}", spdc.signal.polarization()), "pol_i": format!("{:?}", spdc.idler.polarization()),
-  })
+  });
+  if let (Value::Object(ma), Value::Object(mb)) = (&mut a, b) {
+    ma.extend(mb);
+  }
+  a
 }
 
 pub fn cx(c: Complex<f64>) -> Value {
@@ -183,7 +197,8 @@ pub fn dump_values(spdc: &SPDC, js: &JointSpectrum, ws: Frequency, wi: Frequency
   let alpha = pump_spectral_amplitude(ws + wi, spdc);
   json!({"integrand": vals, "fiber": cx(pmf), "jsa_raw": cx(raw), "norm": fx(norm), "alpha": fx(alpha),
     "jsa": cx(js.jsa(ws, wi)), "jsi": fx(*(js.jsi(ws, wi) / JSIUnits::new(1.))),
-    "jsi_singles": fx(*(js.jsi_singles(ws, wi) / JSIUnits::new(1.)))})
+    "jsi_singles": fx(*(js.jsi_singles(ws, wi) / JSIUnits::new(1.))),
+    "corr": fx(spdc::get_counts_correction(spdc))})
 }
 
 pub fn random_zs(rng: &mut Rng, n: usize) -> Vec<f64> {
